@@ -99,6 +99,50 @@ func Solve(script, file string, timeoutS int, order []string) SolveResult {
 	return last
 }
 
+// SolveAll (thorough tier) asks every available back end and cross-checks the definite
+// answers: two solvers that disagree on sat/unsat yield status "disagree", which the caller
+// treats as not discharged.
+func SolveAll(script, file string, timeoutS int, order []string) SolveResult {
+	var first, last SolveResult
+	var tried []string
+	definite := map[string]string{}
+	for _, name := range order {
+		for _, b := range backends {
+			if b.name != name || !haveBackend(b.name) {
+				continue
+			}
+			r := runBackend(b, script, file, timeoutS)
+			tried = append(tried, fmt.Sprintf("%s:%s:%.2fs", b.name, r.Status, r.TimeS))
+			if r.Status == "unsat" || r.Status == "sat" {
+				definite[b.name] = r.Status
+				if first.Status == "" {
+					first = r
+				}
+			} else if last.Status == "" || r.Status != "error" {
+				last = r
+			}
+		}
+	}
+	res := first
+	if res.Status == "" {
+		res = last
+		if res.Status == "" {
+			res.Status = "error"
+			res.Raw = "no solver available"
+		}
+	}
+	seen := ""
+	for _, st := range definite {
+		if seen != "" && st != seen {
+			res.Status = "disagree"
+			res.Model = nil
+		}
+		seen = st
+	}
+	res.Tried = tried
+	return res
+}
+
 var defFunRe = regexp.MustCompile(`\(define-fun\s+(\S+)\s+\(\)\s+`)
 
 // parseModel extracts constant interpretations (define-fun name () Sort value).
